@@ -101,18 +101,21 @@ type Task struct {
 	id     int
 	fn     Closure
 	args   []Value
-	reads  map[string]bool // "location\x00lockset"
-	writes map[string]bool
+	reads  map[string]int // "location\x00lockset" -> sequence number of the LAST such access
+	writes map[string]int
+	parent  *Task
+	bornSeq int // sequence number at the go statement: the spawner's earlier accesses happen before everything here
 	held   map[string]int
 	// atomic accesses: never in conflict with each other, but in conflict with a plain access of another goroutine
-	areads  map[string]bool
-	awrites map[string]bool
+	areads  map[string]int
+	awrites map[string]int
 	done    bool
 }
 
 type WG struct{ n int }
 
 type Sched struct {
+	seq     int // sequence numbers of recorded accesses
 	pending []*Task
 	all     []*Task
 	cur     *Task
@@ -123,7 +126,7 @@ type Sched struct {
 
 func newSched() *Sched {
 	s := &Sched{wgs: map[*Obj]*WG{}}
-	s.mainT = &Task{id: 0, reads: map[string]bool{}, writes: map[string]bool{}}
+	s.mainT = &Task{id: 0, reads: map[string]int{}, writes: map[string]int{}}
 	s.cur = s.mainT
 	s.all = []*Task{s.mainT}
 	return s
@@ -138,10 +141,11 @@ func (m *M) recordAccess(p Ptr, write bool) {
 	}
 	t := s.cur
 	k := locKey(p) + "\x00" + t.lockset()
+	s.seq++
 	if write {
-		t.writes[k] = true
+		t.writes[k] = s.seq
 	} else {
-		t.reads[k] = true
+		t.reads[k] = s.seq
 	}
 }
 
@@ -153,13 +157,14 @@ func (m *M) recordAtomic(p Ptr, write bool) {
 	}
 	t := s.cur
 	if t.areads == nil {
-		t.areads, t.awrites = map[string]bool{}, map[string]bool{}
+		t.areads, t.awrites = map[string]int{}, map[string]int{}
 	}
 	k := locKey(p) + "\x00" + t.lockset()
+	s.seq++
 	if write {
-		t.awrites[k] = true
+		t.awrites[k] = s.seq
 	} else {
-		t.areads[k] = true
+		t.areads[k] = s.seq
 	}
 }
 
@@ -247,14 +252,15 @@ func (m *M) spawn(fn Closure, args []Value) {
 		panic(mergeAbort{"go statement"})
 	}
 	s := m.sched
-	t := &Task{id: len(s.all), fn: fn, args: args, reads: map[string]bool{}, writes: map[string]bool{}}
+	t := &Task{id: len(s.all), fn: fn, args: args, reads: map[string]int{}, writes: map[string]int{}, parent: s.cur}
 	s.all = append(s.all, t)
 	s.pending = append(s.pending, t)
 	if !m.tracking {
 		m.tracking = true
 		s.joined = false
-		s.mainT.reads, s.mainT.writes = map[string]bool{}, map[string]bool{}
+		s.mainT.reads, s.mainT.writes = map[string]int{}, map[string]int{}
 	}
+	t.bornSeq = s.seq
 }
 
 // runTask runs one pending task to completion. A panic escaping a goroutine kills the process.
@@ -299,6 +305,17 @@ func (m *M) wait(w *WG) {
 	}
 }
 
+// spawnedAfter: is task d a descendant of task t that was started (transitively) by a go statement executed after t's
+// access with sequence number seq? Then that access happens before everything d does.
+func spawnedAfter(t *Task, seq int, d *Task) bool {
+	for c := d; c != nil && c.parent != nil; c = c.parent {
+		if c.parent == t {
+			return seq <= c.bornSeq
+		}
+	}
+	return false
+}
+
 func (m *M) checkRaces() []string {
 	var out []string
 	s := m.sched
@@ -307,10 +324,16 @@ func (m *M) checkRaces() []string {
 			if i >= j {
 				continue
 			}
-			conflict := func(x, y map[string]bool) {
-				for kx := range x {
+			conflict := func(x, y map[string]int, tx, ty *Task) {
+				for kx, sx := range x {
+					if spawnedAfter(tx, sx, ty) {
+						continue // all of tx's accesses of this kind precede the go statement that leads to ty
+					}
 					lx, hx := splitAccess(kx)
-					for ky := range y {
+					for ky, sy := range y {
+						if spawnedAfter(ty, sy, tx) {
+							continue
+						}
 						ly, hy := splitAccess(ky)
 						if lx == ly && !protected(hx, hy) {
 							out = append(out, fmt.Sprintf("goroutine%d/goroutine%d on %s", a.id, b.id, lx))
@@ -318,16 +341,16 @@ func (m *M) checkRaces() []string {
 					}
 				}
 			}
-			conflict(a.writes, b.writes)
-			conflict(a.writes, b.reads)
-			conflict(b.writes, a.reads)
+			conflict(a.writes, b.writes, a, b)
+			conflict(a.writes, b.reads, a, b)
+			conflict(b.writes, a.reads, b, a)
 			// atomic against plain
-			conflict(a.awrites, b.writes)
-			conflict(a.awrites, b.reads)
-			conflict(a.areads, b.writes)
-			conflict(b.awrites, a.writes)
-			conflict(b.awrites, a.reads)
-			conflict(b.areads, a.writes)
+			conflict(a.awrites, b.writes, a, b)
+			conflict(a.awrites, b.reads, a, b)
+			conflict(a.areads, b.writes, a, b)
+			conflict(b.awrites, a.writes, b, a)
+			conflict(b.awrites, a.reads, b, a)
+			conflict(b.areads, a.writes, b, a)
 		}
 	}
 	sort.Strings(out)
